@@ -1,6 +1,9 @@
 use crate::infra::Prop;
 
 pub mod c05;
+pub mod c06;
+pub mod c0x;
+pub mod semrun;
 pub mod c07;
 pub mod sem;
 pub mod c08;
@@ -14,12 +17,17 @@ pub mod c16;
 pub mod c17;
 
 pub fn all() -> Vec<&'static str> {
-    vec!["C05", "C07", "C08", "C09", "C10", "C11", "C13", "C14", "C15", "C16", "C17"]
+    vec!["C01", "C02", "C03", "C04", "C05", "C06", "C07", "C08", "C09", "C10", "C11", "C13", "C14", "C15", "C16", "C17"]
 }
 
 pub fn get(id: &str) -> Box<dyn Prop> {
     crate::bind::init();
     match id {
+        "C01" => Box::new(c0x::Sem(semrun::Which::C01)),
+        "C02" => Box::new(c0x::Sem(semrun::Which::C02)),
+        "C03" => Box::new(c0x::Sem(semrun::Which::C03)),
+        "C04" => Box::new(c0x::Sem(semrun::Which::C04)),
+        "C06" => Box::new(c0x::Sem(semrun::Which::C06)),
         "C05" => Box::new(c05::C05),
         "C07" => Box::new(c07::C07),
         "C08" => Box::new(c08::C08),
